@@ -235,7 +235,7 @@ TShutdownReturn == Ev("ShutdownReturn") /\ ShutdownReturn /\ KeepE /\ Adv
 
 TNext ==
   \/ TReset \/ TTime
-  \/ Skip({"Call", "RespChan", "Rearm1", "Quiet", "Tick", "BackLinks", "Stuck", "End"})
+  \/ Skip({"Call", "RespChan", "Rearm1", "Quiet", "Tick", "BackLinks", "Stuck", "End", "Telemetry"})
   \/ TAdmitMiss \/ TAdmitNew \/ TAdmitLost \/ TAdmitReject \/ TEnqueueTry \/ TEnqueueSend \/ TEnqueueCtxDone
   \/ TWaitCtxDone \/ TRespRecv \/ TReturn
   \/ TLoopStart \/ TProcessItem \/ TSendItems \/ TContributor \/ TSemAcquired \/ TFlushDone \/ TTimerFire \/ TRearm0
